@@ -75,7 +75,7 @@ def build(table, subapp=None):
     refs = []
     for i, (tmpl, methods) in enumerate(table):
         for m in methods:
-            app.router.add_route(m, tmpl, _handler_for(i))
+            app.router.add_route(m, tmpl, _handler_for((i, m)))
         refs.append(ref_router.Res(tmpl, methods, i))
     if subapp:
         prefix, subtable = subapp
@@ -84,7 +84,7 @@ def build(table, subapp=None):
         for j, (tmpl, methods) in enumerate(subtable):
             ident = 100 + j
             for m in methods:
-                sub.router.add_route(m, tmpl, _handler_for(ident))
+                sub.router.add_route(m, tmpl, _handler_for((ident, m)))
             subrefs.append(ref_router.Res(prefix + tmpl, methods, ident))
         app.add_subapp(prefix, sub)
         refs.append(ref_router.SubApp(prefix, subrefs))
@@ -388,6 +388,14 @@ def jobs(tier):
     ]
     for j, (tb, sa) in enumerate(subs):
         out.append(dict(name=f"sub-{j}", func="table_check", params=dict(table=tb, subapp=sa, n=n), limits=lim))
+    # a catch-all ("*") route registered after a method-specific one on the same resource
+    anys = [
+        [("/a/{v}", ["GET", "*"]), ("/a/b", ["POST"])],
+        [("/a", ["POST", "*"]), ("/{v}", ["GET"])],
+        [("/{v}", ["DELETE"]), ("/a/{v}", ["GET", "*"])],
+    ]
+    for j, tb in enumerate(anys):
+        out.append(dict(name=f"any-{j}", func="table_check", params=dict(table=tb, n=n), limits=lim))
     for pc in REDIRECT_PIECES:
         out.append(dict(name=f"redirect-{REDIRECT_PIECES.index(pc)}", func="normalize_redirect",
                         params=dict(npieces=3 if quick else 4, first=pc), limits=lim))
